@@ -86,12 +86,13 @@ def main() -> int:
     if thorough:
         cfgs = [("s44", dict(maxr=4, maxc=4, depth=2, pats="1,2"), None, True),
                 ("s33", dict(maxr=3, maxc=3, depth=2, pats="3,4,5", size="TRUE"), None, True),
-                ("doc", dict(maxr=3, maxc=3, depth=2, pats="4,5", vars="1,2,3"), None, True),
+                ("doc", dict(maxr=3, maxc=3, depth=2, pats="4,5,6", vars="0,1,2,3"), None, True),
                 ("sim", dict(maxr=12, maxc=12, depth=10, pats="1,2,4", size="TRUE", w=9144000, h=6858001), "num=400", False)]
     else:
         cfgs = [("s33", dict(maxr=3, maxc=3, depth=2, pats="1,4,5"), None, True),
                 ("s44", dict(maxr=4, maxc=4, depth=1, pats="2", size="TRUE"), None, True),
                 ("doc", dict(maxr=2, maxc=3, depth=1, pats="4", vars="1,2,3"), None, True),
+                ("fld", dict(maxr=2, maxc=3, depth=1, pats="6", vars="0"), None, True),
                 ("sim", dict(maxr=12, maxc=12, depth=10, pats="1,4", size="TRUE", w=9144000, h=6858001, vars="0,1,3"), "num=40", False)]
     states = transitions = 0
     per_cfg, actions = {}, {}
